@@ -78,3 +78,15 @@ structure OgAtoms where
   url : String
   nImages : Int
 end Distill
+
+namespace Distill
+/-- what `distiller.Apply` reads from its Options value after extraction, plus the answers
+of the two pagination finders (atoms) -/
+structure OptAtoms where
+  hasURL : Bool
+  urlString : String
+  skip : Bool
+  algoPageNumber : Bool
+  pageNumberResult : String × String    -- (next, prev) of the page-number finder
+  prevNextResult : String × String      -- (next, prev) of the prev/next finder
+end Distill
